@@ -228,6 +228,13 @@ def check_life(pid, tier, seed):
         print(f"KNOWN-FINDING: property={pid} {ent['id']} {ent['what']} (run {runno})")
     if len(kn) > 5:
         print(f"KNOWN-FINDING: property={pid} ... {len(kn)} runs in total match recorded findings")
+    # predicates beyond the listed properties (AUDIT, PAYSHAPE, NOTIFY) and the other properties' predicates: reported, never a VIOLATION here
+    others = {}
+    for r, (pre, post, kf) in viol.items():
+        for n in pre - {pid}:      # (before any known-finding pattern occurred in the run)
+            others[n] = others.get(n, 0) + 1
+    for n in sorted(set(others) & {"AUDIT", "PAYSHAPE", "NOTIFY"}):
+        print(f"NOTE: growth predicate {n} does not hold in {others[n]} run(s) (not one of the listed properties)")
     samples = []
     for j in (jobs[0], jobs[len(jobs) // 2], jobs[-1]):
         samples.append({"job": {k: j[k] for k in ("run", "tag") if k in j}, "schedule": j.get("sched") or j.get("rand"),
@@ -235,6 +242,7 @@ def check_life(pid, tier, seed):
     cov = {"states": dist, "transitions": gen, "traces_validated_against_impl": len(jobs), "samples": samples,
            "design_instances": mstats, "tlc_schedules_replayed": sstats, "random_schedules": len(jobs) - sum(sstats.values()),
            "trace_lines_judged": nlines, "known_finding_runs": len(kn), "exhaustive": False, "amplified_runs": amplified,
+           "runs_in_which_another_predicate_failed": others,
            "conformance": {n: {"runs": st["runs"], "lines": st["lines"], "drift_lines": len(st["drift"]),
                                "verdict": "accepted" if not st["drift"] else "drift"} for n, st in conf.items()},
            "tlc_schedules_with_inapplicable_steps": div_runs, "inapplicable_steps": div_steps,
